@@ -36,6 +36,9 @@ pub enum Op {
     UnsetHook,
     SetErr { async_ms: Option<u64> },
     UnsetErr,
+    /// `job.control(Control::ContinueTryGracefulRestart)`: a public variant ("internal implementation detail of
+    /// TryGracefulRestart") that anybody holding a Job can send: stop the process if there is one, then start afresh
+    RawContinue,
 }
 
 impl Op {
@@ -59,6 +62,7 @@ impl Op {
             Op::UnsetHook => "unset_spawn_hook",
             Op::SetErr { .. } => "set_error_handler",
             Op::UnsetErr => "unset_error_handler",
+            Op::RawContinue => "control(ContinueTryGracefulRestart)",
         }
     }
     /// 0 normal, 1 high, 2 urgent
@@ -73,7 +77,7 @@ impl Op {
         matches!(self, Op::Run | Op::RunAsync { .. } | Op::RunStall { .. })
     }
     pub fn spawn_capable(&self) -> bool {
-        matches!(self, Op::Start | Op::Restart | Op::TryRestart | Op::RestartSig { .. } | Op::TryRestartSig { .. })
+        matches!(self, Op::Start | Op::Restart | Op::TryRestart | Op::RestartSig { .. } | Op::TryRestartSig { .. } | Op::RawContinue)
     }
     pub fn graceful(&self) -> Option<(i32, u64)> {
         match self {
@@ -183,6 +187,7 @@ pub fn issue(job: &Job, op: &Op, id: u32, jobno: u8) -> Ticket {
         Op::Stop => job.stop(),
         Op::Restart => job.restart(),
         Op::TryRestart => job.try_restart(),
+        Op::RawContinue => job.control(watchexec_supervisor::job::Control::ContinueTryGracefulRestart),
         Op::StopSig { sig, grace } => job.stop_with_signal(sig_of(*sig), g(*grace)),
         Op::RestartSig { sig, grace } => job.restart_with_signal(sig_of(*sig), g(*grace)),
         Op::TryRestartSig { sig, grace } => job.try_restart_with_signal(sig_of(*sig), g(*grace)),
@@ -440,7 +445,13 @@ pub fn random_op(rng: &mut Rng, sigs: &mut SigAlloc, weights: &OpWeights) -> Op 
         0 => Op::Start,
         1 => Op::Stop,
         2 => Op::Restart,
-        3 => Op::TryRestart,
+        3 => {
+            if rng.chance(1, 6) {
+                Op::RawContinue
+            } else {
+                Op::TryRestart
+            }
+        }
         4 => Op::StopSig { sig: sigs.fresh(), grace },
         5 => Op::RestartSig { sig: sigs.fresh(), grace },
         6 => Op::TryRestartSig { sig: sigs.fresh(), grace },
